@@ -7,7 +7,7 @@
 (* printed as <<"MISMATCH", json>> and classified against the open known   *)
 (* findings.  TraceAccepted requires that every line was consumed.         *)
 (***************************************************************************)
-EXTENDS Order, KnownFindings, Json, SequencesExt, FiniteSetsExt, Dpkg, MavenCV, SemVer, Pep440, GemVersion, Apk
+EXTENDS Order, KnownFindings, Range, Json, SequencesExt, FiniteSetsExt, Dpkg, MavenCV, SemVer, Pep440, GemVersion, Apk
 
 CONSTANTS TraceFile,     \* path of the NDJSON trace
           Prop,          \* property id being judged, e.g. "C01"
@@ -99,8 +99,21 @@ AcceptC08(ev) ==
   ELSE {[prop |-> "C08", eco |-> ev.eco, why |-> "accepted-invalid", a |-> ev.texts[i], b |-> "", got |-> 1, want |-> 0, known |-> ""]
           : i \in {i \in 1..ev.n : ~SvStrictValid(S2C(ev.texts[i]))}}
 
+(* C02: a comparator range parses and contains v exactly when Den says so from  *)
+(* the logged signs of Compare(v, bound).                                       *)
+RangeC02(ev) ==
+  IF ~ev.parsed
+  THEN {[prop |-> "C02", eco |-> ev.eco, why |-> "rejected", text |-> ev.text, probe |-> "", got |-> FALSE, want |-> TRUE,
+         err |-> ev.err, known |-> ""]}
+  ELSE {[prop |-> "C02", eco |-> ev.eco, why |-> "contains", text |-> ev.text, probe |-> ev.probes[i],
+         got |-> ev.contains[i], want |-> Den(ev.groups, ev.signs[i]), err |-> "", known |-> ""]
+          : i \in {i \in 1..Len(ev.probes) : ev.contains[i] # Den(ev.groups, ev.signs[i])}}
+       \cup {[prop |-> "C02", eco |-> ev.eco, why |-> "panic", text |-> ev.text, probe |-> ev.panics[i], got |-> FALSE,
+               want |-> FALSE, err |-> "", known |-> ""] : i \in 1..Len(ev.panics)}
+
 Judge(ev) ==
   CASE ev.k = "matrix" /\ Prop = "C01" -> MatrixC01(ev)
+    [] ev.k = "range" /\ Prop = "C02" -> RangeC02(ev)
     [] ev.k = "matrix" /\ Prop = "C08" -> MatrixRef(ev) \cup AcceptC08(ev)
     [] ev.k = "audit" -> AuditRef(ev)
     [] ev.k = "matrix" -> MatrixRef(ev)
